@@ -350,8 +350,27 @@ func genShapeCase(s *shaper, twins int) *shapeCase {
 	return sc
 }
 
-func (sc *shapeCase) write(w db.KeyValueWriter) error {
+// write stores the case the way the node commits: one atomic batch per block (then one
+// for the height, classes and L1 head).
+func (sc *shapeCase) write(st db.KeyValueStore) error {
 	for _, b := range sc.Blocks {
+		batch := st.NewBatch()
+		if err := sc.writeBlock(batch, b); err != nil {
+			return err
+		}
+		if err := batch.Write(); err != nil {
+			return err
+		}
+	}
+	batch := st.NewBatch()
+	if err := sc.writeRest(batch); err != nil {
+		return err
+	}
+	return batch.Write()
+}
+
+func (sc *shapeCase) writeBlock(w db.KeyValueWriter, b *shapedBlock) error {
+	{
 		if err := core.WriteBlockHeader(w, b.Header); err != nil {
 			return fmt.Errorf("WriteBlockHeader: %w", err)
 		}
@@ -368,6 +387,10 @@ func (sc *shapeCase) write(w db.KeyValueWriter) error {
 			return fmt.Errorf("WriteL1HandlerMsgHashes: %w", err)
 		}
 	}
+	return nil
+}
+
+func (sc *shapeCase) writeRest(w db.KeyValueWriter) error {
 	if err := core.WriteChainHeight(w, sc.Blocks[len(sc.Blocks)-1].Header.Number); err != nil {
 		return err
 	}
@@ -632,10 +655,7 @@ func runShapeCase(r *lib.Run, idx int) {
 	run := func(dbn string, st db.KeyValueStore, reopen func() (db.KeyValueStore, error)) {
 		var werr error
 		if perr := safely(func() {
-			batch := st.NewBatch()
-			if werr = sc.write(batch); werr == nil {
-				werr = batch.Write()
-			}
+			werr = sc.write(st)
 		}); perr != nil {
 			werr = perr
 		}
